@@ -435,6 +435,9 @@ func (v *vmRun) emit(op, obs string) {
 	v.nline++
 }
 
+// vmExtra: set by an adapter's init() when it has hand-written scenarios of its own
+var vmExtra func(v *vmRun)
+
 func (v *vmRun) failMon(what string) {
 	v.monBad++
 	fmt.Fprintf(v.mon, "scenario=%d props=C16 what=%s\n", v.scen, what)
@@ -1009,6 +1012,9 @@ func vmMain(t *testing.T) {
 	}
 	if v.sc != nil && !v.sc.closed {
 		_ = v.sc.prov.Close()
+	}
+	if vmExtra != nil && os.Getenv("VERIF_REPLAY") == "" {
+		vmExtra(v) // adapter-specific hand-written scenarios (monitors only, no op lines)
 	}
 	wo.Flush()
 	wb.Flush()
